@@ -4,6 +4,8 @@ import (
 	"encoding/json"
 	"fmt"
 	"time"
+
+	"github.com/gobuffalo/plush/v5"
 )
 
 // semSpec describes a property check that is "TLC generator over the reference semantics +
@@ -23,6 +25,10 @@ type semSpec struct {
 	// Own decides whether a mismatch belongs to this property (otherwise it is drift, decided by
 	// the property that owns it). Default: everything except failures on unspecified cases.
 	Own func(sc *semCase, v semVerdict) bool
+	// TraceCtx > 0: afterwards, up to TraceCtx of the cases are rendered again, sequentially, with the
+	// verif tracer installed, and the evaluator's context operations are validated by TLC against
+	// ContextTrace.tla (direction 2).
+	TraceCtx int
 	// Extra is run on every case after the standard comparison (metamorphic relations etc.).
 	Extra func(c *Ctx, sc *semCase, obs map[string]observation)
 }
@@ -72,7 +78,34 @@ func runSemSpec(c *Ctx, s *semSpec) error {
 	}
 	pool.close()
 	c.exhaustive = allExh || len(runs) > 0 && runs[0].Simulate == 0
+	if err == nil && s.TraceCtx > 0 {
+		err = semTraceCtx(c, s)
+	}
 	return err
+}
+
+// semTraceCtx renders the kept cases one by one with the tracer on and validates the recorded
+// context constructions / writes / reads against Context.tla's actions.
+func semTraceCtx(c *Ctx, s *semSpec) error {
+	c.mu.Lock()
+	kept := c.kept
+	c.kept = nil
+	c.mu.Unlock()
+	rec := &recorder{}
+	rec.install()
+	for _, k := range kept {
+		plush.VerifReset()
+		env := newRunEnv()
+		for n, v := range k.Parts {
+			env.parts[n] = decodeChars(v)
+		}
+		ctx := env.context(k.Data)
+		for _, src := range k.sources() {
+			renderObserved(src, ctx)
+		}
+	}
+	rec.uninstall()
+	return checkCtxTrace(c, "generated_programs", rec.evs, 400)
 }
 
 func semRunCase(c *Ctx, s *semSpec, raw json.RawMessage) {
@@ -87,6 +120,13 @@ func semRunCase(c *Ctx, s *semSpec, raw json.RawMessage) {
 	}
 	if sc.Expect.K == "unspec" {
 		shape = ""
+	}
+	if s.TraceCtx > 0 && shape != "" {
+		c.mu.Lock()
+		if len(c.kept) < s.TraceCtx {
+			c.kept = append(c.kept, &sc)
+		}
+		c.mu.Unlock()
 	}
 	obs := map[string]observation{}
 	for mode, src := range sc.sources() {
@@ -141,6 +181,12 @@ func init() {
 		Quick:    []semRun{{Cfg: "GenFuncs.quick.cfg", Workers: 8}},
 		Thorough: []semRun{{Cfg: "GenFuncs.thorough.cfg", Workers: 12}},
 		Rule: "GenFuncs.tla: functions of 0..MaxParams parameters whose bodies are if/return decision chains (conditions: parameter truthy / falsy / equal to another parameter; results: a parameter or a literal; a probe after every link and after the final return) x every argument tuple over a pool that includes caller variables named like the callee's parameters x six uses of the result (emit, condition, ==, let, argument of a Go helper, call through a parameter of a higher-order function). TLC checks ChainTheorem (value of the call = declarative first-match reading of the chain; probes after the first return reached never run; scope depth restored). Real plush must render the model's output and record the model's probe sequence. distinct_nontrivial = distinct (use, arity, chain length) shapes with specified outcome.",
+	})
+	registerSem(semSpec{
+		ID: "C09", Module: "GenScopes", CheckLog: false, TraceCtx: 400,
+		Quick:    []semRun{{Cfg: "GenScopes.quick.cfg", Workers: 8}},
+		Thorough: []semRun{{Cfg: "GenScopes.thorough.cfg", Workers: 12}},
+		Rule: "GenScopes.tla: every nesting up to MaxDepth of {for, user-function call, partial, contentFor/contentOf with data, block helper with own context} x {the construct itself binds the outer name x, a let in its body binds x}; every level binds a fresh name y_i and probes x and an outer-only name t inside, and x and y_i after the level ends. TLC checks ScopeTheorem (stack depth restored, top scope's x and t unchanged, no y_i leaked) and ProbeTheorem (probe text = declarative expectation) on the reference semantics; real plush must render the same probe output. Direction 2: the context constructions/writes the real evaluator performs while rendering these programs are recorded by the verif hooks and validated by TLC against ContextTrace.tla. distinct_nontrivial = distinct nesting shapes.",
 	})
 	registerSem(semSpec{
 		ID: "C07", Module: "GenIf", CheckLog: true,
